@@ -1,6 +1,8 @@
 #include "printing.hpp"
 #include "interp_util.hpp"
 
+#include <condition_variable>
+#include <mutex>
 #include <pthread.h>
 #include <sstream>
 #include <streambuf>
@@ -144,7 +146,7 @@ void collect_refs(const Val& v, std::vector<const void*>& out)
 
 }   // namespace
 
-bool printable_acyclic(const Entity& root, std::size_t* visited_out, std::string* why)
+bool printable_acyclic(const Entity& root, std::size_t* visited_out, std::string* why, std::unordered_set<const void*>* known_good)
 {
    // iterative DFS with colours over node-valued fields; non-node objects are leaves here
    enum { White, Grey, Black };
@@ -187,6 +189,7 @@ bool printable_acyclic(const Entity& root, std::size_t* visited_out, std::string
       return ks;
    };
    if (root.aux != Aux::None) return true;
+   if (known_good && known_good->count(root.ptr)) return true;
    std::vector<Frame> stack;
    stack.push_back({root.ptr, kids_of(root.ptr), 0});
    colour[root.ptr] = Grey;
@@ -195,10 +198,12 @@ bool printable_acyclic(const Entity& root, std::size_t* visited_out, std::string
       Frame& f = stack.back();
       if (f.next == f.kids.size()) {
          colour[f.node] = Black;
+         if (known_good) known_good->insert(f.node);   // everything below it was explored without meeting a cycle
          stack.pop_back();
          continue;
       }
       const Kid k = f.kids[f.next++];
+      if (known_good && known_good->count(k.node)) continue;
       auto it = colour.find(k.node);
       if (it == colour.end()) {
          colour[k.node] = Grey;
@@ -224,21 +229,70 @@ bool printable_acyclic(const Entity& root, std::size_t* visited_out, std::string
    return true;
 }
 
+namespace {
+// One long-lived big-stack thread per calling thread: creating a 64 MiB stack for every print dominated the run time.
+struct Worker {
+   pthread_t th{};
+   bool started = false;
+   std::mutex m;
+   std::condition_variable cv;
+   Job* job = nullptr;
+   bool quit = false;
+   static void* loop(void* p)
+   {
+      Worker& w = *static_cast<Worker*>(p);
+      std::unique_lock<std::mutex> lk(w.m);
+      for (;;) {
+         w.cv.wait(lk, [&] { return w.job != nullptr || w.quit; });
+         if (w.quit) return nullptr;
+         Job* j = w.job;
+         lk.unlock();
+         run_job(j);
+         lk.lock();
+         w.job = nullptr;
+         w.cv.notify_all();
+      }
+   }
+   bool start()
+   {
+      if (started) return true;
+      pthread_attr_t attr;
+      pthread_attr_init(&attr);
+      pthread_attr_setstacksize(&attr, stack_bytes);
+      started = pthread_create(&th, &attr, loop, this) == 0;
+      pthread_attr_destroy(&attr);
+      return started;
+   }
+   void run(Job& j)
+   {
+      if (!start()) {
+         run_job(&j);   // fall back to the current thread
+         return;
+      }
+      std::unique_lock<std::mutex> lk(m);
+      job = &j;
+      cv.notify_all();
+      cv.wait(lk, [&] { return job == nullptr; });
+   }
+   ~Worker()
+   {
+      if (!started) return;
+      {
+         std::lock_guard<std::mutex> lk(m);
+         quit = true;
+      }
+      cv.notify_all();
+      pthread_join(th, nullptr);
+   }
+};
+}   // namespace
+
 PrintResult guarded_print(const Lexicon& lex, PrintWhat what, const void* target, bool locations)
 {
    PrintResult r;
    Job j{&lex, what, target, locations, &r};
-   pthread_attr_t attr;
-   pthread_attr_init(&attr);
-   pthread_attr_setstacksize(&attr, stack_bytes);
-   pthread_t th;
-   if (pthread_create(&th, &attr, run_job, &j) != 0) {
-      pthread_attr_destroy(&attr);
-      run_job(&j);   // fall back to the current thread
-      return r;
-   }
-   pthread_join(th, nullptr);
-   pthread_attr_destroy(&attr);
+   thread_local Worker worker;
+   worker.run(j);
    return r;
 }
 
@@ -246,7 +300,7 @@ namespace {
 void do_print(World& w, PrintRecord rec, const Entity& root)
 {
    std::string why;
-   if (!printable_acyclic(root, nullptr, &why)) {
+   if (!printable_acyclic(root, nullptr, &why, &w.acyclic_known)) {
       rec.result.status = PrintResult::SkippedCyclic;
       w.findings.count("prints_skipped_cyclic");
       w.findings.count("cyclic_via_" + why);
